@@ -285,6 +285,16 @@ def reuse_across_frames(ctx, b, d):
         path = os.path.join(d, "reuse-%s.lz4" % name)
         open(path, "wb").write(bytes(hdr + body + [0, 0, 0, 0]))
         frames.append({"id": len(frames) + 1, "name": name, "save": path, "valid": valid, "bytes": hdr + body + [0, 0, 0, 0]})
+    # a frame whose content is exactly as long as the first block-size word of the legacy frame says (a byte counter left over
+    # from the earlier stream would then look like the legacy "total size" trailer)
+    leg = next(f for f in frames if f["name"] == "legacy")
+    lb = open(leg["save"], "rb").read()
+    S = int.from_bytes(lb[4:8], "little") & 0x7FFFFFFF
+    trap = {"id": len(frames) + 1, "name": "content-as-long-as-the-legacy-size-word", "input": {"family": "text", "len": S, "seed": 321, "p1": B},
+            "opts": {"code": 4, "bcs": False, "ccs": True, "legacy": False, "level": 0, "conc": 1, "handler": False},
+            "calls": [{"op": "write", "n": S}, {"op": "close"}], "save": os.path.join(d, "reuse-trap.lz4")}
+    fl.shard_run(b, "frame-write", [trap], d, "reusew2", nshards=1)
+    frames.append(trap)
     cases = []
     for g in frames:
         for conc in (1, 4):
@@ -296,6 +306,9 @@ def reuse_across_frames(ctx, b, d):
                     if f is not g:
                         cases.append({"id": len(cases) + 1, "chunks": [{"file": g["save"]}], "cfg": dict(cfg, preFile=f["save"]), "g": g["name"], "f": f["name"],
                                       "ref": ref["id"]})
+                        # ... the earlier life read to its end through Read calls
+                        cases.append({"id": len(cases) + 1, "chunks": [{"file": g["save"]}], "cfg": dict(cfg, preFile=f["save"], preRead=True), "g": g["name"],
+                                      "f": f["name"] + "(Read)", "ref": ref["id"]})
                         # ... the earlier life with the other concurrency (Apply after Reset)
                         cases.append({"id": len(cases) + 1, "chunks": [{"file": g["save"]}], "cfg": dict(cfg, preFile=f["save"], preConc=4 if conc == 1 else 1),
                                       "g": g["name"], "f": f["name"] + "(conc %d)" % (4 if conc == 1 else 1), "ref": ref["id"]})
